@@ -360,8 +360,8 @@ impl<T: HScalar> SeparableNonlinearModel for AnyModel<T> {
 pub enum Call<T> {
     /// set_params with the vector given, whether it succeeded, and params() afterwards
     S(Vec<T>, bool, Vec<T>),
-    /// eval and whether it succeeded
-    E(bool),
+    /// eval, whether it succeeded, and whether every returned value was finite
+    E(bool, bool),
     /// eval_partial_deriv(k), whether it succeeded, and the jacobian round it belongs to
     D(usize, bool, usize),
 }
@@ -423,6 +423,7 @@ pub struct Shared<T> {
     pub counter_se: usize,
     pub round: usize,
     pub last_was_d: bool,
+    pub seen_in_round: Vec<usize>,
     pub faults: FaultPlan,
     pub enabled: bool,
 }
@@ -442,6 +443,7 @@ impl<T: HScalar> Wrap<T> {
             counter_se: 0,
             round: 0,
             last_was_d: false,
+            seen_in_round: vec![],
             faults,
             enabled: true,
         }));
@@ -475,9 +477,12 @@ impl<T: HScalar> Wrap<T> {
         let idx = s.counter;
         s.counter += 1;
         if kind == 'D' {
-            if !s.last_was_d {
+            // a new jacobian round starts after any other call, or when an index repeats
+            if !s.last_was_d || s.seen_in_round.contains(&k) {
                 s.round += 1;
+                s.seen_in_round.clear();
             }
+            s.seen_in_round.push(k);
             s.last_was_d = true;
             *round_out = s.round - 1;
         } else {
@@ -555,11 +560,12 @@ impl<T: HScalar> SeparableNonlinearModel for Wrap<T> {
     fn eval(&self) -> Result<OMatrix<T, Dyn, Dyn>, HErr> {
         let fail = self.tick('E', 0);
         if fail {
-            self.record(Call::E(false));
+            self.record(Call::E(false, true));
             return Err(HErr("injected".into()));
         }
         let r = self.inner.eval();
-        self.record(Call::E(r.is_ok()));
+        let finite = r.as_ref().map(|m| m.iter().all(|v| Float::is_finite(*v))).unwrap_or(true);
+        self.record(Call::E(r.is_ok(), finite));
         r
     }
     fn eval_partial_deriv(&self, k: usize) -> Result<OMatrix<T, Dyn, Dyn>, HErr> {
@@ -584,7 +590,7 @@ pub fn log_out<T: HScalar>(log: &[Call<T>]) -> Value {
         log.iter()
             .map(|c| match c {
                 Call::S(p, ok, after) => json!(["S", slice_out(p), ok, slice_out(after)]),
-                Call::E(ok) => json!(["E", ok]),
+                Call::E(ok, finite) => json!(["E", ok, finite]),
                 Call::D(k, ok, round) => json!(["D", k, ok, round]),
             })
             .collect(),
